@@ -172,13 +172,17 @@ TABLE = [
     ('sum(txn.amount for txn in orders)', 38.5), ('[txn.qty for txn in orders]', [2, 1, 5]), ('len([field for field in orders if field.id == "78"])', 1),
     ('sum(Txn.amount for Txn in orders)', 38.5), ('[FIELD.qty for FIELD in orders]', [2, 1, 5]), ('sum(TXN.amount for txn in orders)', 38.5),
     ('sum(txn.amount for txn in orders) > 0 and txn.amount == 15.5', True), ('len([field.id for field in orders]) == 3 and field.kind == "wire"', True),
+    # ... also when the comprehension could not be evaluated and exists() went on after the failure: the loop variable is gone, the primitive it hid is back
+    ('exists([amount.nope for amount in orders]) or amount == 15.5', True), ('(not exists([lim.nope for lim in orders])) and lim == 10', True),
+    ('exists([o.qty for o in orders for amount in refunds if amount.nope]) or amount == 15.5', True),
     # an optional group that takes no part in the match: extract() returns text ("empty string if no match or no capture group"), never None
     ('extract("COM(X)?")', ''), ('extract("COM(X)?") == ""', True), ('extract(field.code, "AB(-99)?")', ''), ('extract("COM( \\d+)?")', ' 0012'),
     ('"a" in [r.id for r in empty]', False), ('field.kind in [r.kind for r in dated]', True), ('field.kind not in [r.kind for r in dated]', False),
 ]
 
 
-MUST_FAIL = ['len([r for r in orders]) > 0 and r', 'any(r.qty > 1 for r in orders) and r.qty > 1', '[r for r in orders if r.qty > 9] == [] and r', 'sum(r.qty for r in orders) > 0 and r',
+MUST_FAIL = ['not exists([r.nope for r in orders]) and r', 'exists([r.qty for r in orders if r.nope]) or r.qty > 0',
+             'len([r for r in orders]) > 0 and r', 'any(r.qty > 1 for r in orders) and r.qty > 1', '[r for r in orders if r.qty > 9] == [] and r', 'sum(r.qty for r in orders) > 0 and r',
              '[o.id for o in orders for r in refunds] and o', '[o.id for o in orders for r in refunds if r.id == "zz"] == [] and r', 'nosuch', 'field.nosuch', 'txn.nosuch']
 
 
